@@ -295,8 +295,8 @@ def gen_cases(rng, n, n_cf):
 
 def run(ctx):
     quick = ctx.tier == "quick"
-    n = 70 if quick else 1500
-    cases = gen_cases(ctx.rng("gen"), n, 3 if quick else 150)
+    n = 70 if quick else 600
+    cases = gen_cases(ctx.rng("gen"), n, 2 if quick else 40)
     per = 1 if quick else 10
     ctx.rule = ("histories fail^k (k=1..3) -> ok (x1-2) of one task with a fixed cache identity (failure driven by the "
                 "content of a flag file named by a str input) over python/shell/workflow tasks and failure modes raise, "
